@@ -3175,7 +3175,8 @@ def grouped_reduce(inp: AlignedArrays, *, agg: Scan, axis: int, keepdims=None) -
         func=(agg.reduction,),
         axis=axis,
         engine="flox",
-        dtype=inp.array.dtype,
+        # reduce in the dtype of the scan's result (e.g. nancumsum promotes narrow integers)
+        dtype=agg.dtype if agg.dtype is not None else inp.array.dtype,
         fill_value=agg.identity,
         expected_groups=None,
     )
